@@ -933,7 +933,7 @@ var runModes = []struct{ mode, exit string }{
 	{"rerun", "(XRan DOk)"},
 	{"run-error", "(XRan DRemote)"},
 	{"no-location", "XNoLocation"},
-	{"commit-fail", "XCommitFail"},
+	{"commit-fail", "(XCommitFail true)"},
 }
 
 // runCase calls (*bigmachineExecutor).Run directly (hook VerifC14ProbeRun) on
